@@ -25,12 +25,12 @@ func init() {
 }
 
 type bsRoles struct {
-	bsT, lisT, holderT       *types.Named
-	cancelF, holderF, ctxF   *types.Var // on options struct
-	listenersF               *types.Var
-	factoryF, chanFactoryF   *types.Var
+	bsT, lisT, holderT           *types.Named
+	cancelF, holderF, ctxF       *types.Var // on options struct
+	listenersF                   *types.Var
+	factoryF, chanFactoryF       *types.Var
 	acceptorF, lmutexF, lclosedF *types.Var
-	errs                     []string
+	errs                         []string
 }
 
 func resolveBootstrap(p *core.Prog) *bsRoles {
@@ -733,8 +733,8 @@ func runC13Listener(c *core.Ctx, e *ev, br *bsRoles, serverClosed *ssa.Global) {
 		c.Check(good, "R4", "listener/close-records-and-closes", p.Pos(cl.Pos()), "Close sets the closed flag and reads the acceptor under the mutex, then closes it", why)
 	}
 	// Accept only after a successful publication
-	var accepts []ssa.Instruction   // Accept invokes (in Sync or in a helper holding the accept loop)
-	var acceptAt []ssa.Instruction  // the instruction of Sync that stands for each (the invoke itself or the helper call)
+	var accepts []ssa.Instruction  // Accept invokes (in Sync or in a helper holding the accept loop)
+	var acceptAt []ssa.Instruction // the instruction of Sync that stands for each (the invoke itself or the helper call)
 	loopFn := sync
 	core.AllInstrs(sync, func(x ssa.Instruction) {
 		cc := core.CallCommon(x)
